@@ -52,6 +52,8 @@ class Meter(object):
 
     def __call__(self, frame, event, arg):
         if event == "call" or event == "c_call":
+            if not _IN_DECODE:
+                return      # the bookkeeping around the decode (sys.setprofile(None) is itself a profiled C call) is not the decoder's work
             self.n += 1
             if self.n > self.limit:
                 raise BudgetExceeded()
@@ -341,7 +343,7 @@ def handshake_entry(kind):
 def small_corpus():
     out = []
     seen = set()
-    for v, label in c13.gen_values("quick"):
+    for v, label in c13.gen_values("quick", wide=False):
         try:
             b = enc(v)
         except Exception:
@@ -479,6 +481,26 @@ def work(arg):
                     cls, bad, calls = probe(m)
                     maxratio = max(maxratio, calls / (len(m) + 8.0))
                     fold(acc, cls, bad, {"family": "tokens", "hex": m.hex()})
+    elif kind == "repeat":
+        # a unit of one or two tokens repeated d times, then a terminal: every nesting shape whose cost could grow faster
+        # than its length (a value decoded again per level, a rewind, a retry) shows at depth 12..40
+        H = lambda x: struct.pack(">H", x)  # noqa
+        terminals = [b"", H(15), H(3) + b"\x00", H(3) + b"\x01", H(13) + H(3) + b"\x00", H(16) + H(3) + b"\x00"]
+        depths = (6, 12, 18, 28, 40) if _TIER == "quick" else (6, 12, 18, 28, 40, 80, 160)
+        units = [t for t in _TOK] + [a + b for a in _TOK for b in _TOK]
+        if _TIER == "thorough":
+            heads = [t for t in _TOK if len(t) == 2]
+            units += [a + b + c for a in heads for b in _TOK for c in _TOK]
+        for i, u in enumerate(units):
+            if i % n != k:
+                continue
+            for d in depths:
+                for term in terminals:
+                    m = u * d + term
+                    total += 1
+                    cls, bad, calls = probe(m)
+                    maxratio = max(maxratio, calls / (len(m) + 8.0))
+                    fold(acc, cls, bad, {"family": "repeat", "hex": m.hex()})
     elif kind == "handshake":
         for name, b in sorted(_HS.items()):
             entry = handshake_entry(name)
@@ -540,7 +562,7 @@ def _samples():
 def run(tier, seed):
     rep = core.Report()
     n = 32
-    jobs = [(kind, (k + seed) % n, n) for kind in ("tokens", "small", "handshake", "crafted") for k in range(n)]
+    jobs = [(kind, (k + seed) % n, n) for kind in ("tokens", "small", "handshake", "crafted", "repeat") for k in range(n)]
     res = core.pmap("checks.c14", "work", jobs, initargs=(tier,))
     total = 0
     classes = core.Counter()
@@ -588,7 +610,7 @@ def replay(witness):
             t, c, viols, mr = registry_work((k, 16))
             out += [core.Violation(kk[0], kk[1], v[1], v[2]) for kk, v in viols.items() if v[1]["hex"] == witness["hex"] and v[1]["registry"] == witness["registry"]]
         return out
-    if "hex" in witness and witness.get("family") in ("small", "tokens", "handshake"):
+    if "hex" in witness and witness.get("family") in ("small", "tokens", "handshake", "repeat"):
         cls, bad, calls = probe(bytes.fromhex(witness["hex"]))
     elif witness.get("family") == "handshake-entry":
         cls, bad, calls = probe(bytes.fromhex(witness["hex"]), fn=handshake_entry(witness["msg"]))
